@@ -12,6 +12,7 @@
 """
 import hashlib
 import os
+import random
 import re
 import struct
 import subprocess
@@ -52,7 +53,7 @@ THEOREM_CLASSES = {
 UNPROVED = [
     "float -> integer narrowing (nelua_assert_narrow_<float>_<D>): correspondence against the exact oracle only, for x with trunc(x) representable in D",
     "string.byte (index normalisation + guard): hand model, correspondence only",
-    "'before any invalid memory access': the mini-C has no memory; supported by the shape a->v[helper(i, N)] / the accessor returning only after its guard, and by the AddressSanitizer build of the driver in the thorough tier (testing)",
+    "'before any invalid memory access': the mini-C has no memory; supported by the shape a->v[helper(i, N)] / the accessor returning only after its guard, and by the AddressSanitizer build of the driver replaying the memory-touching streams (a sample of 800 in the quick tier, all of them in the thorough tier; testing)",
     "that EVERY implicit conversion of cgenerator.lua goes through add_converted_val: a scrape (add_typed_val has the single caller add_converted_val) and the driver's 15 site streams, no theorem; sites SDeclStatic and SRecArrInit are in the scraped table but not exercised by the driver",
     "exit status and diagnostic text: observed through the forking driver (signal 6 + message), message texts tied through the translator's table",
     "containers of size >= 2^64 - 1, Strict/Wrapv C modes: theorems only (gcc default build tested; clang in thorough)",
@@ -746,14 +747,17 @@ def correspond(ctx):
                               detail={"case": c.impl, "model_case": c.model, "implementation": raw, "model": m, "oracle": orc,
                                       "no_longer_checks": "correspondence stream C04/" + c.stream}, failing_input=False)
     variants = {}
-    if ctx.thorough:
+    if True:
         # "before any invalid memory access": the memory-touching streams again under AddressSanitizer
-        # (an access slipping past a check is reported by ASan in the child's stderr) and under clang
+        # (an access slipping past a check is reported by ASan in the child's stderr) and, thorough tier, under clang.
+        # Quick tier: a seeded sample of 800 of those cases under ASan (the build is cached per compiler fingerprint).
         mem = [(c, raw) for c, raw in zip(cases, impl_out) if c.stream in ("bounds", "lib-at", "lib-mod", "lib-bigspan", "strbyte", "deref", "narrow-sites", "corpus")]
-        for name, extra in (("asan", ["--cflags=-fsanitize=address -fno-omit-frame-pointer -g"]), ("clang", ["--cc", "clang"])):
+        if not ctx.thorough and len(mem) > 800:
+            mem = random.Random(ctx.seed * 7919 + 4).sample(mem, 800)
+        for name, extra in (("asan", ["--cflags=-fsanitize=address -fno-omit-frame-pointer -g"]), ("clang", ["--cc", "clang"]))[:2 if ctx.thorough else 1]:
             try:
                 vexe = build_variant(ctx, name, extra)
-                vout = run_impl(vexe, [c.impl for c, _ in mem], 8)
+                vout = run_impl(vexe, [c.impl for c, _ in mem], 8 if ctx.thorough else 4)
             except RuntimeError as ex:
                 ctx.violation("variant-build:" + name, "harness", "driver variant %s could not be built/run: %s" % (name, ex), failing_input=False)
                 continue
@@ -768,7 +772,7 @@ def correspond(ctx):
                                       detail={"case": c.impl, "variant": name, "output": v, "default_output": raw})
             variants[name] = {"cases": len(mem), "differences": nd}
     return {
-        "build_variants": variants or "thorough tier only (ASan and clang builds of the driver)",
+        "build_variants": variants,
         "evaluations": len(cases),
         "distinct_nontrivial": len(nontrivial),
         "rule": "cases = corpus + per stream: conversions over all 100 (source,destination) pairs (8-bit sources exhaustively, other widths on the boundary lattice of both types and powers of two), 9 conversion sites, explicit casts, array indexing for 10 index types x 17 lengths (8-bit index types exhaustively for lengths <= 17), checked // and % (int8 sampled/exhaustive, wider on the lattice squared), containers (positions around 0/size/type limits, spans up to 2^64-1), string.byte, float sources; non-trivial = distinct cases whose operand is not 0/1",
